@@ -789,7 +789,55 @@ def r11_probe_and_define_same_table(prog, res):
     res.floor("R11.probe_and_define_same_table", "probe-then-define sites", n, 3)
 
 
+def r13_fresh_walk_ignores_old_stamps(prog, res):
+    """The cycle checks (select loops, sub/supertype loops) and the scope searches mark visited nodes with the value of one global
+    counter, and each *starts* by incrementing it: a stamp is only meaningful inside the walk that wrote it.  A function that starts
+    a walk (increments the counter) must therefore not compare a node's stamp with the counter on a path *before* the increment:
+    the equal stamp then comes from some earlier, unrelated walk (or from a name look-up, which uses the same counter), and acting
+    on it - skipping the check - lets a schema with a select cycle through without the ERROR."""
+    from ir import access_path
+    n = 0
+    for f in prog.all_functions():
+        if f.component == "test" or f.cfg is None:
+            continue
+        incs = []
+        for x in f.walk():
+            if x["k"] == "Unary" and "++" in (x.get("op") or "") and x.get("ch") and strip(x["ch"][0]) is not None and \
+                    strip(x["ch"][0])["k"] == "Ref" and strip(x["ch"][0]).get("dk") == "global":
+                incs.append((x, strip(x["ch"][0])["d"]))
+        if not incs:
+            continue
+        for inc, g in incs:
+            # is g used as a visited stamp at all?  (some node->search_id compared with / assigned from it somewhere in the program)
+            if g != "__SCOPE_search_id":
+                continue
+            n += 1
+            pinc = f.cfg.locate(inc)
+            bad = None
+            for c in f.walk():
+                if c["k"] != "Binary" or c.get("op") not in ("==", "!=") or len(c.get("ch") or []) != 2:
+                    continue
+                a, b = strip(c["ch"][0]), strip(c["ch"][1])
+                if a is None or b is None:
+                    continue
+                pair = [a, b]
+                if not (any(y["k"] == "Ref" and y.get("d") == g for y in pair) and
+                        any(y["k"] == "Member" and y.get("n") == "search_id" for y in pair)):
+                    continue
+                pc = f.cfg.locate(c)
+                if pc is not None and pinc is not None and (f.cfg.reaches(pc, pinc) or (pc[0] == pinc[0] and pc[1] < pinc[1])):
+                    bad = c
+                    break
+            res.add("R13.fresh_walk_ignores_old_stamps", "R13|%s|%s|%s" % (f.relfile(), f.name, inc["l"]), f.where(bad or inc), bad is None,
+                    "%s starts its walk (`%s++`) without having looked at a stamp of an earlier walk" % (f.name, g) if bad is None else
+                    "%s tests `%s` and only then starts its own walk with `%s++`: the stamp it sees was written by an earlier, unrelated walk "
+                    "(or by a name look-up, which shares the counter), so the decision taken on it - e.g. not checking this select for a "
+                    "cycle - is arbitrary and an invalid schema is accepted without an ERROR" % (f.name, expr_str(bad)[:60], g))
+    res.floor("R13.fresh_walk_ignores_old_stamps", "functions that start a stamped walk", n, 7)
+
+
 def run(prog, res, tier):
+    r13_fresh_walk_ignores_old_stamps(prog, res)
     r12_silent_attempt_retried(prog, res)
     r11_probe_and_define_same_table(prog, res)
     t = c20.table(prog, res)
